@@ -443,8 +443,11 @@ impl Engine for BuildSim {
                     ops.push(BuildOp::Compile { faults: false });
                 }
                 _ => {
+                    // more rows after the references were resolved, with or without resolving again
                     ops.push(BuildOp::ReadLex { c: 0 });
-                    ops.push(BuildOp::Resolve);
+                    if rng.chance(1, 2) {
+                        ops.push(BuildOp::Resolve);
+                    }
                     ops.push(BuildOp::Compile { faults: false });
                 }
             }
@@ -871,6 +874,7 @@ pub fn execute(case: &BuildCase, stats: &mut Stats, work: &Path) -> Option<Viola
     let csvs: Vec<Vec<u8>> = case.csvs.iter().map(|b| b.bytes()).collect();
     let mut digest = fnv1a(b"buildsim");
     let mut conn_read = false;
+    let mut conn_offered = false;
     let mut nontrivial = false;
 
     for (oi, op) in case.ops.iter().enumerate() {
@@ -881,6 +885,7 @@ pub fn execute(case: &BuildCase, stats: &mut Stats, work: &Path) -> Option<Viola
                     continue;
                 }
                 let data = &mats[*m % mats.len()];
+                conn_offered = true;
                 let r = catch(|| with_builder!(&mut builder, b, b.read_conn(data.as_slice())));
                 match r {
                     Err(p) => return viol("panic", &p.site, oi, json!({"op":"read_conn","message":p.msg})),
@@ -924,7 +929,8 @@ pub fn execute(case: &BuildCase, stats: &mut Stats, work: &Path) -> Option<Viola
                 }
             }
             BuildOp::Compile { faults } => {
-                if !user && !conn_read {
+                let _ = conn_read;
+                if !user && !conn_offered {
                     // a system dictionary always gets a matrix text offered (property's quantifier);
                     // compiling without one is API misuse and is not simulated
                     stats.inc("skipped.compile_without_matrix");
